@@ -594,6 +594,58 @@ func init() {
 	}
 	symbolicStd["strings.EqualFold"] = func(fr *frame, args []value) value {
 		e := fr.i.ex
+		// byte-transparent operands: compare byte by byte, folding ASCII letters
+		{
+			ra, rb := toRope(args[0]), toRope(args[1])
+			na, oka := concreteLen(ra.p)
+			nb, okb := concreteLen(rb.p)
+			hasByte := func(r symStr) bool {
+				for _, x := range r.p {
+					if x.k == pByte {
+						return true
+					}
+				}
+				return false
+			}
+			if oka && okb && (hasByte(ra) || hasByte(rb)) {
+				if na != nb {
+					return false
+				}
+				var acc value = true
+				for i := 0; i < na; i++ {
+					x, y := ropeIndex(ra, i), ropeIndex(rb, i)
+					xc, xIsC := x.(uint8)
+					yc, yIsC := y.(uint8)
+					switch {
+					case xIsC && yIsC:
+						if !strings.EqualFold(string(rune(xc)), string(rune(yc))) {
+							return false
+						}
+					case xIsC || yIsC:
+						c, sv := xc, y
+						if yIsC {
+							c, sv = yc, x
+						}
+						t, _ := bvTerm(sv)
+						lo, up := strings.ToLower(string(rune(c)))[0], strings.ToUpper(string(rune(c)))[0]
+						if lo == up {
+							acc = symAnd(acc, symBool{"(= " + t + " " + bvConst(int64(c), 8) + ")"})
+						} else {
+							acc = symAnd(acc, symBool{"(or (= " + t + " " + bvConst(int64(lo), 8) + ") (= " + t + " " + bvConst(int64(up), 8) + "))"})
+						}
+					default:
+						// both symbolic: equal, or equal after folding (ASCII letters only)
+						tx, _ := bvTerm(x)
+						ty, _ := bvTerm(y)
+						fold := func(t string) string {
+							return "(ite (and (bvuge " + t + " #x41) (bvule " + t + " #x5a)) (bvor " + t + " #x20) " + t + ")"
+						}
+						acc = symAnd(acc, symBool{"(= " + fold(tx) + " " + fold(ty) + ")"})
+					}
+				}
+				return acc
+			}
+		}
 		a := e.lowerRope(toRope(args[0]), "lower")
 		b := e.lowerRope(toRope(args[1]), "lower")
 		return e.ropeEq(toRope(a), toRope(b))
